@@ -15,7 +15,8 @@ IMPORTS = ["Base.Prelude", "Rle.Model", "Compression.Model", "Compression.Corr"]
 M63 = (1 << 63) - 1
 CODECS = ["RAW", "RLE", "ZIP", "ZIPP"]
 DEPTHS = [1, 8, 16, 32]
-CRIT_W = [1, 2, 127, 128, 129, 130, 131, 255, 256, 257, 258]
+CRIT_W = [1, 2, 126, 127, 128, 129, 130, 131, 253, 254, 255, 256, 257, 258]
+PY_W = [1, 2, 3, 63, 64, 125, 126, 127, 128, 129, 130, 131, 252, 253, 254, 255, 256, 257, 258]
 HUGE_W = [16383, 16384, 16385]
 V1_SAFE_ROW = 65022  # rows up to this many bytes provably fit the 16-bit count (Rle encode_bound)
 
@@ -291,14 +292,144 @@ def mutate(ck, s):
     return bytes(s)
 
 
+# ------------------------------------------------------------------ second binding: the pure-Python row codec
+def py_binding_pass(ck, comp, CC, inp):
+    """The package binds rle_impl to the compiled _rle when it can be imported and to rle.py otherwise (every fresh
+    checkout).  Run the RLE streams once more with rle_impl rebound to rle.py: codec level, independent-encoder
+    streams and the three containers; model side with py_decode.  Always restores the binding."""
+    try:
+        from psd_tools.compression import rle as pyrle
+    except Exception as e:  # noqa
+        ck.notes.append("psd_tools.compression.rle not importable: %r" % (e,))
+        ck.obligations.append(("binding:rle.py importable", False, repr(e)[:200]))
+        return
+    from psd_tools.psd.image_data import ImageData
+    from psd_tools.psd.layer_and_mask import ChannelData
+    from psd_tools.psd.patterns import VirtualMemoryArray
+
+    thorough = ck.tier == "thorough"
+    geo = []
+    for w in PY_W:
+        for h in ((1, 2, 3, 5) if thorough else (1, 2, 3)):
+            for depth in (8, 16, 32):
+                geo.append((w, h, depth, "crit"))
+    for w in range(1001, 1017):  # 1-bit rows of 126 and 127 bytes
+        for h in (1, 2, 3):
+            geo.append((w, h, 1, "bitw"))
+    for w in range(0, 7):
+        for h in range(0, 7):
+            for depth in DEPTHS:
+                geo.append((w, h, depth, "small"))
+    if thorough:
+        for _ in range(300):
+            geo.append((ck.rng.randint(1, 300), ck.rng.randint(1, 6), ck.rng.choice(DEPTHS), "rand"))
+    comp_cases, rt_cases, spec_cases, cont = [], [], [], []
+    saved = comp.rle_impl
+    comp.rle_impl = pyrle
+    try:
+        for (w, h, depth, tag) in geo:
+            n = h * row_bytes(w, depth)
+            for version in (1, 2):
+                cls = classes(ck.rng)
+                if tag == "small":
+                    cls = ck.rng.sample(cls, 2)
+                for ct in cls:
+                    g = (1, w, h, depth, version, n)
+                    data = gen(ct, n)
+                    ck.count("pyrle:cases")
+                    ck.count("pyrle:shape:" + tag)
+                    if n >= 2 and len(set(data)) > 1:
+                        ck.nontriv(("py", g, ct))
+                    r = call(comp.compress, data, CC[1], w, h, depth, version)
+                    comp_cases.append(((g, ct), dg(r)))
+                    if r[0] == "err":
+                        rt = r
+                        if r[1] == 5 and version == 1 and row_bytes(w, depth) > V1_SAFE_ROW:
+                            ck.count("guard:v1-row-does-not-fit")
+                        else:
+                            ck.fail("roundtrip-codec-pyrle", inp(g, ct, binding="rle.py"), [r[1]], "decompress(compress(x)) == x",
+                                    stage="compress", error=r[2])
+                    else:
+                        rt = call(comp.decompress, bytes(r[1]), CC[1], w, h, depth, version)
+                        if rt[0] != "ok" or bytes(rt[1]) != data:
+                            ck.fail("roundtrip-codec-pyrle", inp(g, ct, binding="rle.py"), canon(rt)[:40], "decompress(compress(x)) == x",
+                                    stage="decompress", error=rt[2] if rt[0] == "err" else "")
+                    rt_cases.append(((g, ct), dg(rt)))
+                    for variant in (0, 1, 2):
+                        sp = spec_rle_stream(data, w, h, depth, version, variant)
+                        rs = call(comp.decompress, sp, CC[1], w, h, depth, version)
+                        ck.count("pyrle:spec-stream")
+                        if rs[0] != "ok" or bytes(rs[1]) != data:
+                            ck.fail("spec-stream-decode-pyrle", inp(g, ct, encoder="packbits%d" % variant, binding="rle.py"), canon(rs)[:40],
+                                    "the original pixels", error=rs[2] if rs[0] == "err" else "")
+                        if len(sp) <= 300 and ck.rng.random() < 0.3:
+                            spec_cases.append((((1, w, h, depth, version, len(sp)), ("lit", list(sp))), dg(rs)))
+                    # one container per case
+                    kind = ck.rng.randrange(3)
+                    if kind == 2 and version == 2:
+                        kind = 0
+                    channels = ck.rng.randint(1, 3)
+                    if kind == 0:
+                        def rtc():
+                            cd = ChannelData(compression=CC[1])
+                            cd.set_data(data, w, h, depth, version)
+                            return cd.get_data(w, h, depth, version)
+                        g2, want, name = g, data, "roundtrip-channeldata-pyrle"
+                    elif kind == 1:
+                        g2 = (1, w, h, depth, version, n * channels)
+                        want = gen(ct, n * channels)
+                        planes = [want[i * n:(i + 1) * n] for i in range(channels)]
+                        hdr = types.SimpleNamespace(version=version, channels=channels, height=h, width=w, depth=depth)
+
+                        def rtc():
+                            im = ImageData(compression=CC[1])
+                            im.set_data(planes, hdr)
+                            return im.get_data(hdr)
+                        name = "roundtrip-imagedata-pyrle"
+                    else:
+                        def rtc():
+                            v = VirtualMemoryArray()
+                            v.set_data((w, h), data, depth, CC[1])
+                            return v.get_data()
+                        g2, want, name = g, data, "roundtrip-vma-pyrle"
+                    r = call(rtc)
+                    ck.count("pyrle:container:" + name[10:-6])
+                    if kind == 1:
+                        okr = r[0] == "ok" and [bytes(p) for p in r[1]] == planes
+                        if r[0] == "ok":
+                            flat = [0]
+                            for pl in r[1]:
+                                flat += [len(pl)] + list(bytes(pl))
+                            mo = [h63_list(0, flat)]
+                        else:
+                            mo = [h63_list(0, [r[1]])]
+                    else:
+                        okr = r[0] == "ok" and r[1] is not None and bytes(r[1]) == want
+                        mo = dg(r) if not (r[0] == "ok" and r[1] is None) else [h63_list(0, [7])]
+                    if not okr:
+                        ck.fail(name, inp(g2, ct, channels=channels, binding="rle.py"),
+                                canon(r)[:40] if r[0] == "err" or kind != 1 else "planes differ",
+                                "get_data(set_data(x)) == x", error=r[2] if r[0] == "err" else "")
+                    cont.append(((kind, channels, g2, ct), mo))
+    finally:
+        comp.rle_impl = saved
+    ck.correspond("compress_pyrle", "c_compress", IMPORTS, comp_cases, case_lit, chunk=500)
+    ck.correspond("roundtrip_pyrle", "c_roundtrip false", IMPORTS, rt_cases, case_lit, chunk=500)
+    ck.correspond("decompress_spec_pyrle", "c_decompress false", IMPORTS, spec_cases, case_lit, chunk=700)
+    ck.correspond("containers_pyrle", "c_container false", IMPORTS, cont, cont_lit, chunk=500)
+    ck.notes.append("second binding pass: rle_impl rebound to psd_tools.compression.rle for %d RLE cases, then restored to %s"
+                    % (len(comp_cases), getattr(saved, "__name__", "?")))
+
+
 # ------------------------------------------------------------------ the run
 def run():
     logging.getLogger("psd_tools").setLevel(logging.CRITICAL)
     ck = Check("C04")
-    ck.rule = ("shapes: every (w,h) in 0..6 x 0..6, critical widths {1,2,127..131,255..258} x h in 1..3 (thorough: 1..5), 1-bit widths off the "
+    ck.rule = ("shapes: every (w,h) in 0..6 x 0..6, critical widths {1,2,126..131,253..258} x h in 1..3 (thorough: 1..5), 1-bit widths off the "
                "byte grid, 16384x1 (thorough: 16383..16385 x 1) and 24 (thorough: 400) random shapes <= 64x64; x depth {1,8,16,32} x version x codec x "
                "six content classes (constant, runs, ramp, alternating, noise, extremes) with fresh parameters; "
                "streams of an independent spec-following encoder (three PackBits strategies, prediction) and mutated streams; "
+               "the RLE codec once more with rle_impl rebound to the pure-Python rle.py (widths 63,64,125..131,252..258, 1-bit 1001..1016, small shapes; codec, spec streams, containers); "
                "containers with their own geometry; non-trivial = raster with >= 2 bytes that is not constant")
     comp, C = impl()
     cy = uses_cy()
@@ -553,6 +684,11 @@ def run():
     for i in bad[:3]:
         ck.notes.append("container round trip: model and code differ on %r" % (cont[i][0],))
 
+    # ---------------- the same RLE streams under the fallback binding (rle.py)
+    py_binding_pass(ck, comp, CC, inp)
+    if comp.rle_impl.__name__ != ck.notes[0].rsplit(" ", 1)[-1]:
+        ck.obligations.append(("binding restored", False, comp.rle_impl.__name__))
+
     ck.obligations.append(("assumption-tested:zlib.decompress(zlib.compress(x)) == x", zlib_law_bad == 0,
                            "" if zlib_law_bad == 0 else "%d payloads did not survive zlib" % zlib_law_bad))
     ck.assumptions += [
@@ -575,8 +711,22 @@ def replay(path):
     ct = tuple(i["content"])
     data = gen(ct, i["n"])
     c, w, h, depth, version = i["codec"], i["w"], i["h"], i["depth"], i["version"]
+    kind = fl["kind"][:-6] if fl["kind"].endswith("-pyrle") else fl["kind"]
+    saved = comp.rle_impl
+    if i.get("binding") == "rle.py":
+        from psd_tools.compression import rle as pyrle
+
+        comp.rle_impl = pyrle
+        print("binding: rle_impl rebound to psd_tools.compression.rle (the fallback taken when _rle cannot be imported)")
+    try:
+        return _replay(fl, i, kind, comp, CC, ct, data, c, w, h, depth, version)
+    finally:
+        comp.rle_impl = saved
+
+
+def _replay(fl, i, kind, comp, CC, ct, data, c, w, h, depth, version):
     print("kind:", fl["kind"], "| codec", CODECS[c], "w", w, "h", h, "depth", depth, "version", version, "bytes", len(data), "content", ct)
-    if fl["kind"] == "spec-stream-decode":
+    if kind == "spec-stream-decode":
         if i["encoder"].startswith("packbits"):
             s = spec_rle_stream(data, w, h, depth, version, int(i["encoder"][-1]))
         elif i["encoder"] == "predict":
@@ -586,7 +736,7 @@ def replay(path):
         r = call(comp.decompress, s, CC[c], w, h, depth, version)
         print("decompress(spec stream) ->", "equal to the pixels" if r[0] == "ok" and bytes(r[1]) == data else canon(r)[:40], r[2] if r[0] == "err" else "")
     else:
-        hh = h * i.get("channels", 1) if fl["kind"] == "roundtrip-imagedata" else h
+        hh = h * i.get("channels", 1) if kind == "roundtrip-imagedata" else h
         r = call(comp.compress, data, CC[c], w, hh, depth, version)
         print("compress ->", ("%d bytes" % len(r[1])) if r[0] == "ok" else r[1:])
         if r[0] == "ok":
